@@ -15,7 +15,7 @@ StringKinds == {"page", "textboxh", "textline", "char", "figure", "image"}
 OnlyIntended == {{}}
 AsCodedAll == {{}, {"FigureNameRaw", "TextSinkUtf8", "BomPerWrite"}}
 \* strings for the sink dimension: ASCII characters that escaping codecs rewrite, a CJK run followed by ASCII
-StrSinks(n) == UNION {[1..m -> {cPLAIN, cPLUS, cTILDE, cNONASCII, cLT}] : m \in 0..n}
+StrSinks(n) == UNION {[1..m -> {cPLAIN, cPLUS, cTILDE, cNONASCII, cWIDE, cLT}] : m \in 0..n}
 StrSinks3 == StrSinks(3)
 StrSinks2 == StrSinks(2)
 \* strings of format metacharacters: %%, %s, %d, a trailing %, {0}, {} ...
@@ -23,6 +23,7 @@ StrFormat(n) == UNION {[1..m -> {cPLAIN, cPCT, cLBRACE, cRBRACE, cFMT}] : m \in 
 StrFormat2 == StrFormat(2) \cup {<<cLBRACE, cFMT, cRBRACE>>, <<cPCT, cPCT, cFMT>>, <<cPCT, cLT, cFMT>>}
 StrFormat3 == StrFormat(3)
 FormatPalette == {<<cPCT>>, <<cPCT, cPCT>>, <<cPCT, cFMT>>, <<cPLAIN, cPCT>>, <<cLBRACE, cFMT, cRBRACE>>, <<cLBRACE, cRBRACE>>, <<cPCT, cLT, cFMT>>}
+DevTextFilter == {{"TextSinkCodecFilter"}}
 DevBypass == {{"AsciiBypass"}}
 DevFig == {{"FigureNameRaw"}}
 DevUtf8 == {{"TextSinkUtf8"}}
